@@ -111,47 +111,69 @@ def check(run: Run, prog: Program, model: Model, tier: str) -> None:
     run.analysed["category_universe"] = len(cats)
 
     # ---------------------------------------------------------------- DISPATCH
+    # decided by abstract evaluation of the dispatcher on each opcode constant of the universe (the handlers it
+    # calls are summarised: "returns a generated string"), so any spelling of the dispatch - elif chain, early
+    # returns, `in` tests, a lookup table - is judged by what it does with the opcode
     gen = cls.methods.get("_generate")
     if gen is None:
         raise AnalysisError("RegexGenerator._generate not found")
-    arms, default = dispatch_arms(gen.node, "opcode")
-    if not arms:
-        raise AnalysisError("opcode dispatch chain in _generate not recognised")
+    verdict: Dict[str, str] = {}
+    for op in sorted(universe | SUPPORTED | {UNKNOWN}):
+        verdict[op] = _dispatch_verdict(_run_dispatch(prog, model, cls, "_generate", [_op(prog, cls, op), Sym("value", None)]))
+    if not any(v == "returns" for v in verdict.values()):
+        raise AnalysisError("opcode dispatch in _generate not recognised (no opcode constant reaches a generating arm)")
+    run.analysed["dispatch_verdicts"] = {k: v for k, v in verdict.items() if v != "raises"}
     for op in sorted(SUPPORTED):
         c = f"_generate: opcode {op}"
-        if op in arms and returns_value(arms[op]):
-            run.holds("DISPATCH", c, gen.loc, "has a generating arm", nontrivial=False)
+        if verdict.get(op) == "returns":
+            run.holds("DISPATCH", c, gen.loc, "has a generating arm", nontrivial=True)
+        elif verdict.get(op) == "unknown":
+            run.undecided("DISPATCH", c, gen.loc, "the dispatcher could not be evaluated for this opcode")
         else:
             run.violated("DISPATCH", c, gen.loc, f"supported opcode {op} has no generating arm",
                          witness=f"a pattern using {op} is refused or mishandled")
     for op in sorted((universe & MUST_REFUSE)):
         c = f"_generate: opcode {op}"
-        if op in arms and not always_raises(arms[op]):
+        if verdict.get(op) in ("returns", "mixed"):
             run.violated("DISPATCH", c, gen.loc, f"unsupported opcode {op} is handled without raising",
                          witness="a pattern with lookaround / backreference / atomic group yields a string that need not match")
+        elif verdict.get(op) == "unknown":
+            run.undecided("DISPATCH", c, gen.loc, "the dispatcher could not be evaluated for this opcode")
         else:
-            run.holds("DISPATCH", c, gen.loc, "no silent arm", nontrivial=False)
-    extra = set(arms) - SUPPORTED - MUST_REFUSE
-    for op in sorted(extra):
-        if op in universe and not always_raises(arms[op]):
+            run.holds("DISPATCH", c, gen.loc, "no silent arm", nontrivial=True)
+    for op in sorted(universe - SUPPORTED - MUST_REFUSE):
+        if verdict.get(op) in ("returns", "mixed"):
             run.note("DISPATCH", f"_generate: opcode {op}", gen.loc, "extra opcode handled (outside the property's two lists)")
-    if always_raises(default):
-        run.holds("DISPATCH", "_generate: default arm", gen.loc, "unknown opcodes raise", nontrivial=False)
+    if verdict[UNKNOWN] == "raises":
+        run.holds("DISPATCH", "_generate: default arm", gen.loc, "unknown opcodes raise", nontrivial=True)
+    elif verdict[UNKNOWN] == "unknown":
+        run.undecided("DISPATCH", "_generate: default arm", gen.loc, "the dispatcher could not be evaluated")
     else:
         run.violated("DISPATCH", "_generate: default arm", gen.loc, "the dispatch default does not raise",
                      witness="RegexGenerator(...).generate('(?=a)b') returns a string instead of refusing")
     cat = cls.methods.get("_get_category_alphabet")
     if cat is None:
         raise AnalysisError("RegexGenerator._get_category_alphabet not found")
-    carms, cdefault = dispatch_arms(cat.node, "value")
+    cat_alpha: Dict[str, Optional[str]] = {}
+    cverdict: Dict[str, str] = {}
+    for cn in sorted(cats | {UNKNOWN}):
+        ps = _run_dispatch(prog, model, cls, "_get_category_alphabet", [_op(prog, cls, cn)])
+        cverdict[cn] = _dispatch_verdict(ps)
+        vals = {p.value.value if isinstance(p.value, Const) and isinstance(p.value.value, str) else None for p in ps if p.outcome == "return"}
+        if cverdict[cn] == "returns":
+            cat_alpha[cn] = vals.pop() if len(vals) == 1 else None
     for cn in sorted(SUPPORTED_CAT):
         c = f"_get_category_alphabet: {cn}"
-        if cn in carms and returns_value(carms[cn]):
-            run.holds("DISPATCH", c, cat.loc, "has an alphabet", nontrivial=False)
+        if cverdict.get(cn) == "returns":
+            run.holds("DISPATCH", c, cat.loc, "has an alphabet", nontrivial=True)
+        elif cverdict.get(cn) == "unknown":
+            run.undecided("DISPATCH", c, cat.loc, "the dispatcher could not be evaluated for this category")
         else:
             run.violated("DISPATCH", c, cat.loc, f"supported category {cn} has no alphabet", witness=r"\d or \w is refused")
-    if always_raises(cdefault):
-        run.holds("DISPATCH", "_get_category_alphabet: default arm", cat.loc, "unknown categories raise", nontrivial=False)
+    if cverdict[UNKNOWN] == "raises":
+        run.holds("DISPATCH", "_get_category_alphabet: default arm", cat.loc, "unknown categories raise", nontrivial=True)
+    elif cverdict[UNKNOWN] == "unknown":
+        run.undecided("DISPATCH", "_get_category_alphabet: default arm", cat.loc, "the dispatcher could not be evaluated")
     else:
         run.violated("DISPATCH", "_get_category_alphabet: default arm", cat.loc, "unknown categories get an alphabet instead of a refusal",
                      witness=r"generate(r'\s') returns a non-space character")
@@ -181,7 +203,7 @@ def check(run: Run, prog: Program, model: Model, tier: str) -> None:
     _children(run, prog, model, cls)
 
     # ---------------------------------------------------------------- ALPHABET
-    _alphabets(run, prog, model, cls, carms)
+    _alphabets(run, prog, model, cls, cat_alpha)
 
     # ---------------------------------------------------------------- NO-HIDDEN-STATE (memoised fragments go stale)
     from .c17 import hidden_state
@@ -213,6 +235,42 @@ def _run_handler(prog: Program, model: Model, cls: ClassInfo, name: str, mk: Any
         assert isinstance(rg, Inst)
         return i.call_function(f, [mk()], {}, self_val=rg)
     return it.run_paths(run)
+
+
+UNKNOWN = "__NO_SUCH_CODE__"
+
+
+def _run_dispatch(prog: Program, model: Model, cls: ClassInfo, name: str, args: List[V]) -> List[Path]:
+    """Abstract evaluation of a dispatcher method with the sibling `_generate*` handlers summarised."""
+    it = Interp(prog, model, unroll=1)
+    f = cls.methods[name]
+
+    def summary(hname: str) -> Any:
+        def contract(interp: Any, fv: Any, a: List[Any], kw: Dict[str, V], node: Any) -> Optional[V]:
+            interp.emit("call", node, callee=fv.func.qualname, args=a, kwargs=kw, resolved=True, inlined=False)
+            return Sym(f"generated:{hname}", "str", ("handler", hname))
+        return contract
+    for m in cls.methods.values():
+        if m.name != name and m.name.startswith("_generate"):
+            it.contracts[m.qualname] = summary(m.name)
+
+    def run(i: Interp) -> V:
+        g = make_visitor(i, "Generator")
+        rg = g.attrs.get("_regex_generator")
+        assert isinstance(rg, Inst)
+        return i.call_function(f, list(args), {}, self_val=rg)
+    return it.run_paths(run)
+
+
+def _dispatch_verdict(ps: List[Path]) -> str:
+    outs = {p.outcome for p in ps}
+    if not ps or "limit" in outs:
+        return "unknown"
+    if outs == {"raise"}:
+        return "raises"
+    if outs == {"return"}:
+        return "returns"
+    return "mixed"
 
 
 def _calls(p: Path, suffix: str) -> List[Event]:
@@ -326,7 +384,7 @@ def _op(prog: Program, cls: ClassInfo, name: str) -> V:
     return Ext(r) if isinstance(r, str) else Ext(f"re._constants.{name}")
 
 
-def _alphabets(run: Run, prog: Program, model: Model, cls: ClassInfo, carms: Dict[str, List[ast.stmt]]) -> None:
+def _alphabets(run: Run, prog: Program, model: Model, cls: ClassInfo, cat_alpha: Dict[str, Optional[str]]) -> None:
     # constant-fold self._alphabet from __init__ by abstract evaluation of the singleton construction
     it = Interp(prog, model)
     out: Dict[str, Optional[str]] = {}
@@ -347,15 +405,9 @@ def _alphabets(run: Run, prog: Program, model: Model, cls: ClassInfo, carms: Dic
     if not out:
         run.undecided("ALPHABET", "RegexGenerator._alphabet", site, "alphabet table could not be constant-folded")
         return
-    # which alphabet key does each category arm return?
-    cat_key: Dict[str, str] = {}
-    for cn, body in carms.items():
-        for n in ast.walk(ast.Module(body=body, type_ignores=[])):
-            if isinstance(n, ast.Subscript) and isinstance(n.slice, ast.Constant) and isinstance(n.value, ast.Attribute) and n.value.attr == "_alphabet":
-                cat_key[cn] = n.slice.value
-    for cn, key in sorted(cat_key.items()):
-        c = f"alphabet[{key!r}] for {cn}"
-        chars = out.get(key)
+    # the alphabet each supported category is answered with (value returned by the category dispatcher)
+    for cn, chars in sorted(cat_alpha.items()):
+        c = f"alphabet for {cn}"
         rx = CAT_REGEX.get(cn)
         if chars is None or rx is None:
             run.undecided("ALPHABET", c, site, "not a constant / unknown category")
@@ -377,13 +429,12 @@ def _alphabets(run: Run, prog: Program, model: Model, cls: ClassInfo, carms: Dic
         if len(set(letters)) < 2:
             probs.append("fewer than two characters: a negated literal may have no candidate")
         # negated categories: removing the category alphabet must remove every letter the category matches
-        for cn, key in cat_key.items():
+        for cn, ca in cat_alpha.items():
             rx = CAT_REGEX.get(cn)
-            ca = out.get(key)
             if rx and ca is not None:
                 leak = sorted({ch for ch in letters if re.fullmatch(rx, ch) and ch not in ca})
                 if leak:
-                    probs.append(f"[^{rx}] can yield {leak[:5]!r}: matched by {rx} but missing from alphabet[{key!r}]")
+                    probs.append(f"[^{rx}] can yield {leak[:5]!r}: matched by {rx} but missing from the alphabet of {cn}")
         if probs:
             run.violated("ALPHABET", "alphabet['letters'] for `.` and negated classes", site, "; ".join(probs),
                          witness="generate('.') / generate(r'[^\\d]') returns a non-matching character")
